@@ -107,8 +107,6 @@ func (c *ChunkComposer) RunLoop(reader io.Reader, cb OnCompleteMessage) error {
 			stream.header.MsgLen = bele.BeUint24(bootstrap[3:])
 			stream.header.MsgTypeId = bootstrap[6]
 			stream.header.MsgStreamId = int(bele.LeUint32(bootstrap[7:]))
-
-			stream.msg.Grow(stream.header.MsgLen)
 		case 1:
 			if _, err := io.ReadAtLeast(reader, bootstrap[:7], 7); err != nil {
 				return err
@@ -118,8 +116,6 @@ func (c *ChunkComposer) RunLoop(reader io.Reader, cb OnCompleteMessage) error {
 			//stream.header.TimestampAbs += stream.header.Timestamp
 			stream.header.MsgLen = bele.BeUint24(bootstrap[3:])
 			stream.header.MsgTypeId = bootstrap[6]
-
-			stream.msg.Grow(stream.header.MsgLen)
 		case 2:
 			if _, err := io.ReadAtLeast(reader, bootstrap[:3], 3); err != nil {
 				return err
@@ -177,10 +173,27 @@ func (c *ChunkComposer) RunLoop(reader io.Reader, cb OnCompleteMessage) error {
 			neededSize = c.peerChunkSize
 		}
 
-		if _, err := io.ReadFull(reader, stream.msg.buff.ReserveBytes(int(neededSize))); err != nil {
-			return err
+		// 注意，不按包头中声明的MsgLen（对端可以随意声明，最大16M，每个csid一份）一次性预留内存，
+		// 而是随着实际收到的数据逐步扩容：每次最多再预留已收到的长度（至少initMsgLen），
+		// 这样占用的内存和实际收到的数据成正比，拷贝的总量不超过message长度的两倍
+		for got := uint32(0); got < neededSize; {
+			piece := neededSize - got
+			limit := stream.msg.Len()
+			if limit < initMsgLen {
+				limit = initMsgLen
+			}
+			if piece > limit {
+				piece = limit
+			}
+			if _, err := io.ReadFull(reader, stream.msg.buff.ReserveBytes(int(piece))); err != nil {
+				if err == io.EOF && got > 0 {
+					err = io.ErrUnexpectedEOF
+				}
+				return err
+			}
+			stream.msg.Flush(piece)
+			got += piece
 		}
-		stream.msg.Flush(neededSize)
 
 		if stream.msg.Len() == stream.header.MsgLen {
 			// 对端设置了chunk size
